@@ -150,10 +150,12 @@ impl FileContextAnalyzer {
             return (None, ConfidenceLevel::Insufficient);
         }
 
-        // Find the most common style
+        // Find the most common style. Equal counts are decided by the declaration order of
+        // `Style` (the earlier style wins), not by the iteration order of the hash map, which
+        // differs from one process to the next
         let (dominant_style, count) = style_counts
             .iter()
-            .max_by_key(|(_, count)| *count)
+            .max_by_key(|(style, count)| (**count, std::cmp::Reverse(**style as usize)))
             .map(|(style, count)| (*style, *count))
             .unwrap();
 
@@ -192,7 +194,7 @@ impl FileContextAnalyzer {
 
         // If dominant style isn't possible, try other common styles in order
         let mut sorted_styles: Vec<(Style, usize)> = stats.style_counts.into_iter().collect();
-        sorted_styles.sort_by_key(|(_, count)| std::cmp::Reverse(*count));
+        sorted_styles.sort_by_key(|(style, count)| (std::cmp::Reverse(*count), *style as usize));
 
         sorted_styles
             .into_iter()
